@@ -1,8 +1,10 @@
 """C06 - every input record becomes exactly one item, in order, unaltered
-(spec/FzfRecords.tla, FzfReader.tla, FzfChunkList.tla)."""
+(spec/FzfRecords.tla, FzfReader.tla, FzfChunkList.tla; the content of an item under the builder variants of core.go -
+plain, --ansi, --with-nth, --read0 - is spec/FzfItems.tla, bound in lib/props/c06_items.py)."""
 import hashlib, json, os, socket, subprocess, threading, time, urllib.request
 from concurrent.futures import ThreadPoolExecutor
 import vlib
+import props.c06_items as items
 from vlib import replay_cases, record_and_judge, judge, first_diff, Infra, go_env, log
 
 MAXW = int(os.environ.get("VERIF_MAXWORKERS", "16"))      # development: cap TLC workers on a shared machine
@@ -171,7 +173,8 @@ UNITS = [b"a", b"B", b"7", b" ", b"\t", b"\xc3\xa9", b"\xed\x95\x9c", b"-", b"/"
 
 def rec_content(i, n, read0):
     """content of the i-th record (1-based), exactly n bytes, derived from (i, n): valid UTF-8, never contains the
-    delimiter, never starts or ends with white space (so that --with-nth .. is the identity on it)"""
+    delimiter.  Every fourth record ends in white space, every seventh starts with it: whatever --with-nth makes of the
+    presentation, the record that comes out must be the record that went in (FzfItems.OutputText)"""
     prefix = b"r%d:" % i
     if n <= len(prefix):
         return prefix[:n]
@@ -181,8 +184,14 @@ def rec_content(i, n, read0):
     body = (block * ((n - len(prefix)) // len(block) + 1))[:n - len(prefix)]
     body = body.decode("utf-8", "ignore").encode("utf-8")
     body += b"x" * (n - len(prefix) - len(body))
-    if body[-1:] in (b" ", b"\t", b"\n"):
+    if i % 4 == 0:
+        tail = [b" ", b"\t", b"  ", b" \t ", b"\r"][(i // 4) % 5][:len(body)]
+        head = body[:len(body) - len(tail)].decode("utf-8", "ignore").encode("utf-8")
+        body = head + b"x" * (len(body) - len(tail) - len(head)) + tail
+    elif body[-1:] in (b" ", b"\t", b"\n"):
         body = body[:-1] + b"x"
+    if i % 7 == 0:
+        prefix = b" r%d" % i
     return prefix + body
 
 
@@ -220,6 +229,9 @@ def make_stream(rng, prof, read0, force_marker=False):
         lens.append(rng.randint(6, 20))
         unterm = False
     recs = [rec_content(i + 1, n, read0) for i, n in enumerate(lens)]
+    if force_marker:        # the marker itself carries no white space at its end (it is what the driver waits for)
+        m = recs[-1].rstrip(b" \t\r")
+        recs[-1] = m + b"x" * (len(recs[-1]) - len(m))
     d = b"\0" if read0 else b"\n"
     data = d.join(recs) + (b"" if (unterm or not recs) else d)
     return lens, unterm, recs, data
@@ -490,8 +502,26 @@ def bind_binary(ctx):
 
 
 def run(ctx):
-    only = os.environ.get("VERIF_C06_ONLY", "")     # development knob: run a single stage (mc|feed|chunklist|random|binary|tty)
+    only = os.environ.get("VERIF_C06_ONLY", "")     # development knob: run single stages (mc|feed|chunklist|random|binary|tty|
+    #                                                 items-mc|items|items-random|items-tty)
     want = lambda k: not only or k in only.split(",")
+    # (0) content of an item under the builder variants (FzfItems): design check on all small streams, plus the
+    # counterexample that shows the model is sensitive to dropping the reference to the record
+    if want("items-mc"):
+        # (coverage statistics cost ~15 s of start-up here: the vacuity check by action counts runs in the thorough tier; the
+        # quick tier checks that the search reached the depth only Extend AND Push steps can reach)
+        iruns = [("MC_Items_quick.cfg", False, 7), ("MC_Items_rec.cfg", False, 4)]
+        if not ctx.quick:
+            iruns += [("MC_Items_cov.cfg", True, 5), ("MC_Items.cfg", False, 10), ("MC_Items_rec_thorough.cfg", False, 6)]
+        for cfg, cover, depth in iruns:
+            mc = ctx.mc("MC_Items", cfg, timeout=3000, coverage=cover, workers=min(MAXW, ctx.pick(8, 16)), label=cfg.replace(".cfg", ""))
+            dead = [a for a, n in mc.action_cov.items() if n == 0]
+            if dead or mc.depth != depth:
+                raise Infra("vacuous model %s: actions never taken: %s, depth %d (expected %d)" % (cfg, dead, mc.depth, depth))
+        r = ctx.tlc("MC_Items", "MC_Items_dev.cfg", workers=2, timeout=600, expect_ok=False, label="dev-KeepOrigIfDiffers")
+        if r.code != 12 or not any("InvContent" in e for e in r.errors):
+            raise Infra("deviation config MC_Items_dev.cfg no longer yields its counterexample (exit %d)" % r.code)
+        ctx.cov["deviation_counterexamples"] = {"KeepOrigIfDiffers": "InvContent violated after %d states" % r.distinct}
     # (1) design: exhaustive model checking on small constants, ALL chunkings of the stream
     if want("mc"):
         # coverage statistics slow TLC down ~10x: the vacuity check runs on the small configurations, the large
@@ -522,6 +552,13 @@ def run(ctx):
         nt += bind_binary(ctx)
     if want("tty"):
         nt += bind_tty(ctx)
+    # (4) content of the items: E (TLC-enumerated option variants x all small records) and J (random) through the binary
+    if want("items"):
+        nt += items.bind_export(ctx, ctx.build_fzf())
+    if want("items-random"):
+        nt += items.bind_random(ctx, ctx.build_fzf())
+    if want("items-tty"):
+        nt += items.bind_sessions(ctx, ctx.build_fzf())
     ctx.cov["distinct_nontrivial"] = nt
     ctx.cov["rule"] = (
         "sum over the bindings of the cases that can distinguish a wrong reader/item layer: (E feed) distinct TLC behaviours of "
@@ -529,7 +566,10 @@ def run(ctx):
         "delimiters; (E chunk list) TLC behaviours of FzfChunkList (chunk size 100) with a Push after a Snapshot; (J feed) "
         "random real feed() executions with >= 2 items and >= 3 reads judged by folding the spec's step function; (J binary) "
         "runs of the real binary on streams with >= 2 records; (J interactive) tmux sessions in which --tail actually trimmed. "
-        "Classes exercised are counted in feed_behaviour_classes / chunklist_behaviours / binary_runs / interactive_sessions.")
+        "(E items) TLC-enumerated cases (--with-nth form x delimiter x --ansi x block of all records up to 3..4 symbols x query), each "
+        "run on 2-3 filter paths of the real binary; (J items) random option / record combinations with >= 2 records and interactive "
+        "sessions with accept.  Classes exercised are counted in feed_behaviour_classes / chunklist_behaviours / binary_runs / "
+        "interactive_sessions / item_cases / item_random_runs / item_sessions.")
     ctx.cov["exhaustive"] = False
     ctx.assumptions += [
         "read() never returns data together with an error and never returns (0, nil) (OS-faithful; the reader's handling of "
@@ -538,10 +578,14 @@ def run(ctx):
         "readerBufferSize/readerSlabSize/chunkSize are Go constants: the exhaustive all-chunkings exploration (buffer 3, slab 6, "
         "chunk 2..3) exists on the model only; the real code is bound with the real constants on TLC-chosen interesting read "
         "sizes plus random ones",
-        "record contents at the process boundary are valid UTF-8 without leading/trailing blanks (fzf decodes text; invalid "
-        "UTF-8 is outside the property); the in-package harness uses arbitrary bytes 11..255",
+        "record contents at the process boundary are valid UTF-8 (fzf decodes text; invalid UTF-8 is outside the "
+        "property); the in-package harness uses arbitrary bytes 11..255",
         "item numbering is observed through --listen (GET /) in interactive sessions only; filter mode shows order, count, "
         "content, header diversion and tail",
+        "FzfItems: escape sequences are two atoms (ESC[35m, ESC[m) - which byte strings are escape sequences is C11's "
+        "subject; search is observed with case-sensitive literal exact terms only (-e +i --literal), and with a non-empty "
+        "query only on the unranked paths (+s, +s --sync): ranking is C04's subject; the header rendition is specified but "
+        "not observed here",
         "the index of the first non-header record is 0 (code-derived; the manual only says zero-based)",
     ]
     return "model_checking"
@@ -559,6 +603,8 @@ def replay_one(ctx, h):
         r = case["record"]
         record_and_judge(ctx, h, "TestVerifReaderRandom", [{"seed": r["seed"], "nul": r["nul"], "prof": r["prof"]}],
                          "Judge_Feed", "Judge_Feed.cfg", "feedrandom", describe=feed_rec_describe, workers=1)
+    elif label.startswith("items"):
+        items.replay(ctx, ctx.build_fzf(), case)
     elif label in ("binary", "tty"):
         job = dict(case["job"])
         if label == "tty":
